@@ -251,6 +251,15 @@ def run(ctx):
                     continue
                 check([(cname, "constructor", a[0], doc, a[1]), (cname, "constructor", b[0], doc, b[1])])
                 dist["type_twin_pairs"] += 1
+    # systematically: a schema only a subclass accepts, submitted by that subclass first and by every other class afterwards
+    so = [p for p in pool_schemas if p[1] == 'subclass-only']
+    for sch, tag in so:
+        for first in ("SubRule", "SubType"):
+            for second in CLASSES:
+                if second != first:
+                    for entry in ("constructor", "setter", "update"):
+                        check([(first, "constructor", sch, doc, tag), (second, entry, sch, doc, tag)])
+                        dist["subclass_then_other_class"] += 1
     # all ordered pairs of the twin families through the constructor, per class pair
     tw = [p for p in pool_schemas if p[1] != 'plain' and p[1] != 'corrupt']
     pairs = list(itertools.permutations(range(len(tw)), 2))
